@@ -391,6 +391,8 @@ func (e *Engine) heapSortByName(c *FnCtx, name string) (string, bool) {
 		return "Int", true
 	case "OPAQUE":
 		return "Int", true
+	case "GH_sorted":
+		return "(Array Int Int)", true
 	case "GH_owned":
 		return "(Array Int Bool)", true
 	case "GH_out":
